@@ -239,12 +239,15 @@ def watchdog(seconds: float):
     def handler(signum, frame):  # noqa: ARG001
         raise CaseTimeout(f"case exceeded {seconds}s")
     old = signal.signal(signal.SIGALRM, handler)
-    signal.setitimer(signal.ITIMER_REAL, seconds)
+    t0 = time.time()
+    outer_delay, _ = signal.setitimer(signal.ITIMER_REAL, seconds)
     try:
         yield
     finally:
         signal.setitimer(signal.ITIMER_REAL, 0)
         signal.signal(signal.SIGALRM, old)
+        if outer_delay > 0:  # nested use: re-arm the enclosing watchdog with what is left of its budget
+            signal.setitimer(signal.ITIMER_REAL, max(0.05, outer_delay - (time.time() - t0)))
 
 
 def run_cases(mod: Any, cases: list[dict], rec: Recorder, ctx: dict, case_timeout: float) -> None:
